@@ -135,6 +135,13 @@ fn build_dir(job: &Value, scratch: &Path) -> std::io::Result<(PathBuf, PathBuf)>
         "rel" => PathBuf::from(&pname),
         "dot_rel" => PathBuf::from(format!("./{}", pname)),
         "trailing_slash" => PathBuf::from(format!("{}/", proj.display())),
+        // the user is inside the project directory and passes "."
+        "dot" => PathBuf::from("."),
+        // the user passes the .ctehexml file itself instead of its directory
+        "file_arg" => {
+            let f = std::fs::read_dir(&proj).ok().and_then(|rd| rd.flatten().map(|e| e.path()).find(|p| p.extension().map(|x| x == "ctehexml").unwrap_or(false)));
+            f.unwrap_or_else(|| proj.join("proyecto.ctehexml"))
+        }
         "symlink" => {
             let l = root.join("enlace");
             let _ = std::os::unix::fs::symlink(&proj, &l);
@@ -286,7 +293,8 @@ pub fn run(ctx: &mut WorkerCtx, job: &Value) -> JobOutput {
     let _ = &real;
     let given_s = given.to_string_lossy().to_string();
     let old_cwd = std::env::current_dir().ok();
-    let _ = std::env::set_current_dir(&root);
+    let run_cwd = if job["path_form"] == "dot" && real.is_dir() { real.clone() } else { root.clone() };
+    let _ = std::env::set_current_dir(&run_cwd);
     let (reference, lib_stdout) = capture_stdout(|| {
         contain(|| {
             let found = if Path::new(&given_s).exists() {
@@ -343,7 +351,7 @@ pub fn run(ctx: &mut WorkerCtx, job: &Value) -> JobOutput {
             cmd.env("VERIF_FAKE_TIME", s.to_string());
         }
     }
-    cmd.current_dir(&root);
+    cmd.current_dir(&run_cwd);
     let out_model = root.join("modelo_salida.json");
     let out_ind = root.join("indicadores_salida.json");
     let _ = std::fs::remove_file(&out_model);
